@@ -13,6 +13,7 @@ for key, c in allc:
     if pats and not any(p in name for p in pats):
         continue
     res = run.generate(eng, c)
+    run.apply_case_splits(eng, c, res)
     results.append(res)
 wall = run.solve_parallel(eng, results, jobs=14)
 tot = 0
